@@ -123,7 +123,9 @@ func init() {
 				m["rel_"+rel] = n * scale
 			}
 			m["rel_varcycle_terminated"] = 300 * scale // graphs with cycles / missing references executed to completion
-			m["computed_pairs"] = 18000 * scale
+			m["var_empty_fallback"] = 400 * scale                 // var() with an empty fallback among other tokens (missing / invalid / defined custom property)
+		m["var_empty-fallback-undefined"] = 150 * scale
+		m["computed_pairs"] = 18000 * scale
 			m["computed_pairs_in_style_attribute"] = 12000 * scale
 			m["decl_pairs"] = 9000 * scale
 			m["effect_cases"] = 8000 * scale
@@ -281,6 +283,10 @@ func check(raw json.RawMessage) fw.Result {
 	res.Nontrivial = in.A != in.B
 	res.Count("rel_"+in.Rel, 1)
 	res.Count("prop:"+in.Prop, 1)
+	if in.Rel == "var" && strings.HasPrefix(in.Note, "empty-fallback") {
+		res.Count("var_empty_fallback", 1)
+		res.Count("var_"+in.Note, 1)
+	}
 	for _, e := range in.Expect {
 		if e != in.Prop {
 			res.Count("sets:"+e, 1)
